@@ -5,7 +5,7 @@ CONSTANTS
   GenHist = FALSE
 INIT TInit
 NEXT TNext
-INVARIANTS OnePerSession OneObject Accounting MissingBounded NonNegative QuietUnlocked
+INVARIANTS OnePerSession OneObject OneProjectEntry Accounting MissingBounded NonNegative QuietUnlocked
 PROPERTIES TAcceptWithinMax TRelayNumIncreases TAcceptedRelayNum
 POSTCONDITION Post
 CHECK_DEADLOCK FALSE
